@@ -39,7 +39,7 @@ void harness_send_one (void)
   routed_message (sender);
   ts_transaction = &transaction_obj;
   DBusError err; err.name = NULL; err.message = NULL;
-  __CPROVER_assume (PRE_send_one_message (proposed, &ts_context_obj, sender, addressed, &M, ts_transaction, &err) && PRE_routed_has_serial (&M));
+  __CPROVER_assume (PRE_send_one_message (proposed, &ts_context_obj, sender, addressed, &M, ts_transaction, &err));
   __CPROVER_assume (sender == NULL || sender->active);
 
   dbus_bool_t ret = send_one_message ((DBusConnection *) proposed, (BusContext *) &ts_context_obj, (DBusConnection *) sender, (DBusConnection *) addressed,
@@ -83,7 +83,7 @@ void harness_matches (void)
   _Bool swap = nondet_bool ();
   ts_recipient[0] = swap ? &ts_conns[3] : &ts_conns[2]; ts_recipient[1] = swap ? &ts_conns[2] : &ts_conns[3]; ts_recipient[2] = &ts_conns[0];
   DBusError err; err.name = NULL; err.message = NULL;
-  __CPROVER_assume (PRE_bus_dispatch_matches (ts_transaction, sender, addressed, &M, &err) && PRE_routed_has_serial (&M));
+  __CPROVER_assume (PRE_bus_dispatch_matches (ts_transaction, sender, addressed, &M, &err));
 
   dbus_bool_t ret = bus_dispatch_matches ((BusTransaction *) ts_transaction, (DBusConnection *) sender, (DBusConnection *) addressed, (DBusMessage *) &M, &err);
 
